@@ -461,6 +461,16 @@ class CompleteStageHandler(
                                         stage_id=downstream.id,
                                     )
                                 )
+                            if phase is None and all(d.status.is_complete for d in downstream_stages):
+                                # Re-run of a stage (operator restart) whose downstream
+                                # stages have all finished already: their StartStage is
+                                # ignored, so nobody else would complete the workflow.
+                                txn.push_message(
+                                    CompleteWorkflow(
+                                        execution_type=execution.type.value,
+                                        execution_id=execution.id,
+                                    )
+                                )
                         elif downstream_stages and not skipped_downstreams:
                             # All downstreams came from split logic but none activated
                             # (shouldn't normally happen for AND-split)
